@@ -600,6 +600,10 @@ func (e *Engine) tryStub(name string, fn *ssa.Function, args []Value, g *Term, p
 	case "time.Since", "time.Until":
 		e.StubsUsed[name]++
 		return Fresh("duration", 64), true
+	case "github.com/obolnetwork/charon/p2p.RegisterHandler":
+		// stream handler registration on the libp2p host: no effect on the logic under test
+		e.StubsUsed[name]++
+		return nil, true
 	case "time.Sleep", "runtime.Gosched", "runtime.KeepAlive":
 		return nil, true
 	case "encoding/json.Marshal":
@@ -640,6 +644,12 @@ func (e *Engine) tryStub(name string, fn *ssa.Function, args []Value, g *Term, p
 	}
 	if strings.HasPrefix(name, "sync/atomic.") {
 		if r, ok := e.atomicOp(name[len("sync/atomic."):], args, g, pos); ok {
+			e.StubsUsed[name]++
+			return r, true
+		}
+	}
+	if strings.HasPrefix(name, "(*sync.Map).") {
+		if r, ok := e.syncMapOp(name[len("(*sync.Map)."):], fn, args, g, pos); ok {
 			e.StubsUsed[name]++
 			return r, true
 		}
@@ -990,4 +1000,51 @@ func (e *Engine) sortStub(name string, args []Value, g *Term, pos token.Pos) {
 			}
 		}
 	}
+}
+
+// syncMapOp models sync.Map as an ordinary map from interface keys to interface values (one engine map per sync.Map cell).
+func (e *Engine) syncMapOp(op string, fn *ssa.Function, args []Value, g *Term, pos token.Pos) (Value, bool) {
+	r, ok := args[0].(RefV)
+	if !ok || len(r.alts) != 1 {
+		return nil, false
+	}
+	cell := r.alts[0].o.(*Cell)
+	if e.syncMaps == nil {
+		e.syncMaps = map[*Cell]*MapObj{}
+	}
+	m := e.syncMaps[cell]
+	if m == nil {
+		anyT := types.NewInterfaceType(nil, nil)
+		m = &MapObj{id: nextID(), typ: types.NewMap(anyT, anyT)}
+		e.syncMaps[cell] = m
+	}
+	mref := RefV{[]RefAlt{{TS.True, m}}}
+	switch op {
+	case "Load":
+		v, okT := mapLookupObj(m, args[1])
+		return TupleV{[]Value{v, okT}}, true
+	case "Store":
+		e.mapUpdate(mref, args[1], args[2], g, pos)
+		return nil, true
+	case "LoadOrStore":
+		v, okT := mapLookupObj(m, args[1])
+		e.mapUpdate(mref, args[1], args[2], And(g, Not(okT)), pos)
+		return TupleV{[]Value{iteV(okT, v, args[2]), okT}}, true
+	case "LoadAndDelete":
+		v, okT := mapLookupObj(m, args[1])
+		e.mapDelete(mref, args[1], g)
+		return TupleV{[]Value{v, okT}}, true
+	case "Delete":
+		e.mapDelete(mref, args[1], g)
+		return nil, true
+	case "Range":
+		for _, en := range m.entries {
+			if en.present.IsFalse() {
+				continue
+			}
+			e.callValue(args[1], []Value{en.key, en.val}, And(g, en.present), pos, nil)
+		}
+		return nil, true
+	}
+	return nil, false
 }
